@@ -5,6 +5,7 @@ import (
 	"encoding/json"
 	"os"
 	"sync"
+	"time"
 
 	"nhooyr.io/websocket"
 )
@@ -115,4 +116,38 @@ func LogPeerSent(c *websocket.Conn, f Frame) {
 		code = int64(f.Payload[0])<<8 | int64(f.Payload[1])
 	}
 	websocket.VerifSink(websocket.VerifEvent{Conn: websocket.VerifConnID(c), Ev: "PeerSent", A: int64(f.Op), B: flags, D: ln, E: code})
+}
+
+// ---- stretching a window ----
+// A hook is also a scheduler gate: the goroutine that logs event Ev on a registered connection is held there for a while, so that a
+// window of a few nanoseconds in the code (a mutex taken and the flag it protects not yet raised, a lock wait that has just failed
+// and the asynchronous closer not yet started ...) becomes wide enough for the other actors to run into it.  This only chooses a
+// schedule; what the execution then does is judged by the trace specifications as always.
+
+type stretchCfg struct {
+	ev string
+	d  time.Duration
+}
+
+var stretchTab sync.Map // connection id -> stretchCfg
+
+// StretchPoints are the events a campaign may stretch: where the library has just taken or is about to release something others
+// contend for.
+var StretchPoints = []string{"CloseEnter", "ClosedPre", "ClosedPost", "CasClosingOK", "WgCloseMu", "RwcClosed", "CloseRcvd",
+	"LockOK", "LockFailCtx", "WfHeader", "WfDisarm", "PingReg", "PongRcvd", "RdHeader", "MwClose", "CrStart"}
+
+// Stretch registers c: whoever logs ev on it sleeps d. Unstretch removes the entry.
+func Stretch(c *websocket.Conn, ev string, d time.Duration) {
+	stretchTab.Store(websocket.VerifConnID(c), stretchCfg{ev, d})
+}
+
+func Unstretch(c *websocket.Conn) { stretchTab.Delete(websocket.VerifConnID(c)) }
+
+// StretchGate is a Tracer.Gate.
+func StretchGate(e websocket.VerifEvent) {
+	if v, ok := stretchTab.Load(e.Conn); ok {
+		if sc := v.(stretchCfg); sc.ev == e.Ev {
+			time.Sleep(sc.d)
+		}
+	}
 }
